@@ -20,7 +20,7 @@ let lbl_name = function
   | CloseFail _ -> "CloseFail" | QueueFail _ -> "QueueFail"
 let xlbl_name = function
   | XSubmit _ -> "XSubmit" | XFetch _ -> "XFetch" | XBuildRound _ -> "XBuildRound" | XClean -> "XClean"
-  | XNoConn -> "XNoConn" | XSendExit -> "XSendExit" | XCore l -> lbl_name l
+  | XNoConn -> "XNoConn" | XSendExit -> "XSendExit" | XWake -> "XWake" | XCore l -> lbl_name l
 
 exception Reject of string * string (* oracle, reason *)
 
@@ -202,6 +202,8 @@ let whitebox (scid : string) (label : string) (cfg_limit : int) (evl : string li
            be read without a race, so only the weakest quota (Some 0) is demanded; what IS checked exactly is that
            nothing popped is lost (every entry that left the builder was built or had been given up) *)
         let lim = if cfg_limit <= 0 then None else Some O in
+        (* no request arrived since the last round: the send loop woke up on its retry timer for the leftover entries *)
+        if not (ready !xs) then apply "builder" XWake;
         (match xstep !xs (XBuildRound (lim, takes)) with
          | Some x' -> xs := x'; incr steps; bump "step:XBuildRound" 1
          | None ->
